@@ -436,6 +436,10 @@ pub(crate) fn concat<'a>(a: Span<'a>, b: Span<'a>) -> Option<Span<'a>> {
 /// `begin_keywords is an ordinary identifier there (IEEE 1800-2017 22.14), so it must
 /// not be taken for a keyword either.
 pub(crate) fn is_reserved_in_force(t: &str) -> bool {
+    // the name of a compiler directive belongs to no standard's table: `include is a directive under every set
+    if in_directive() && KEYWORDS_DIRECTIVE.contains(&t) {
+        return true;
+    }
     let keywords = match current_version() {
         Some(Version::Ieee1364_1995) => KEYWORDS_1364_1995,
         Some(Version::Ieee1364_2001) => KEYWORDS_1364_2001,
